@@ -1816,7 +1816,7 @@ def rule_trivial_trait_set(out, tier):
 
 RULES = {
     "C16": [rule_coded_stream_bounds, rule_blocks, rule_fill_loops_end, rule_stream_reads_counted],
-    "C01": [rule_coded_stream_bounds, rule_serializer_twins, rule_output_order, rule_reader_overwrites, rule_trivial_trait_set],
+    "C01": [rule_coded_stream_bounds, rule_serializer_twins, rule_output_order, rule_reader_overwrites, rule_trivial_trait_set, rule_blocks],
     "C15": [rule_cxx_header],
     "C04": [rule_cxx_header, rule_output_order],
     "C03": [rule_output_order, rule_reader_overwrites],
